@@ -17,7 +17,8 @@ def proj_obs(o):
 def run(ctx):
     bits = {1024, 2048} if ctx.quick else {1024, 2048, 4096}
     info = chan_info(ctx, bits)
-    consts = {"ChunkSizes": {0, 8196, 8197, 8300}, "KeyBits": bits, "CertLen": info["certs"], "MinLen": info["mins"],
+    sizes = {0, 8196, 8197, 8300} if ctx.quick else ({0, 8300, 9000, 12345, 16384} | set(range(8196, 8213)))
+    consts = {"ChunkSizes": sizes, "KeyBits": bits, "CertLen": info["certs"], "MinLen": info["mins"],
               "DevSignPadded": True}
     # the corrected design (padding only in encrypted chunks) satisfies Reassemble(Receive(Secure(Split(m)))) = m and the
     # chunk rules for every case
@@ -30,7 +31,7 @@ def run(ctx):
         crate=CRATE, key=lambda c: c.get("c"), expected=proj_exp, observed=proj_obs,
         nontrivial=lambda c: c["c"]["pol"] != "None" and c["c"]["mode"] != "None",
         rule="TLC enumerates chunk kind (symmetric MSG, asymmetric OPN) x 6 policies x 3 modes x direction x chunk size limit "
-             "{0 = unlimited, 8196, 8197, 8300} x message length placed by the layout itself around the chunk boundaries (smallest "
+             "{0 = unlimited, 8196, 8197, 8300; thorough: 8196..8212 (every alignment to the AES block), 8300, 9000, 12345, 16384} x message length placed by the layout itself around the chunk boundaries (smallest "
              "message, B-1, B, B+1, 2B, 2B+1, 3B+7 for the maximal body B; OPN: smallest, every padding situation around a full RSA "
              "plain text block, a chunk filled to the limit) x certificate key sizes allowed by the policy (1024/2048, thorough adds "
              "4096), checks Reassemble(Receive(Secure(Split(m)))) = m on the specified layout and prints it; the harness builds a real "
